@@ -263,3 +263,19 @@ def blocks_of(fn):
                 visit(c.body)
     visit(fn.body)
     return out
+
+
+def positions(fn):
+    """Depth-first (source order) position of every node under `fn`:
+    orders statements where line numbers do not (statements of an
+    expanded helper all carry the line of the call they replace)."""
+    pos = dict()
+    k = [0]
+
+    def visit(n):
+        pos[id(n)] = k[0]
+        k[0] += 1
+        for c in ast.iter_child_nodes(n):
+            visit(c)
+    visit(fn)
+    return pos
